@@ -4,7 +4,7 @@
    correspondence run of checks/C01.py; Gen/Registry.v and Gen/Grammar.v are regenerated on every run. *)
 From Coq Require Import ZArith List Bool Arith String.
 Import ListNotations.
-From SqfVerif Require Import Syntax.SyntaxDefs Syntax.ParsePrint Syntax.LexProofs Syntax.CompileProofs Syntax.Reading Syntax.GenProofs Syntax.Findings.
+From SqfVerif Require Import Syntax.SyntaxDefs Syntax.ParsePrint Syntax.LexProofs Syntax.LexGlue Syntax.CompileProofs Syntax.Reading Syntax.GenProofs Syntax.Findings.
 From SqfVerif Require Gen.Registry Gen.Grammar.
 
 (* 1-2. The reading.  `print_toks R lay ss` is the documented reading written out: a binary operator of
@@ -39,6 +39,23 @@ Print Assumptions C01_parse_print_min.
 Theorem C01_lex_render : forall items trail, sep_ok items trail -> lex (render items trail) = LexOk (map snd items).
 Proof. exact lex_render. Qed.
 Print Assumptions C01_lex_render.
+
+(* 3a. No whitespace at all wherever the token grammar allows it (sep_glued): a name, a keyword, a number may be followed
+   directly by any character that cannot continue it (an operator character, a quote: `1--1`, `_a++_b`, `a*-b`), a string
+   literal by anything but a quote (`"s"select 0`), an operator by anything that does not spell a longer operator, a
+   comment or a #line directive with it (`a&&!b`, `a>=-1`, `a/-b`; not `> =`, `/ *`, `# line`), `=` by anything but `=`
+   (`x=-1`).  sep_ok is the special case (sep_ok_glued). *)
+Theorem C01_lex_render_glued : forall items trail, sep_glued items trail -> lex (render items trail) = LexOk (map snd items).
+Proof. exact lex_render_glued. Qed.
+Print Assumptions C01_lex_render_glued.
+
+Theorem C01_compiled_reading_glued : forall (R:registry) (d:defects) (lay:layout) (ss:list stmt) items trail,
+  wf_block R ss -> map snd items = print_raw lay ss -> sep_glued items trail ->
+  exists f0, forall f, (f0 <= f)%nat ->
+    match parse_text d R f (render items trail) with FOk p => compile_block p | _ => None end
+    = Some (postorder_block (map strip_stmt ss)).
+Proof. exact compiled_reading_glued. Qed.
+Print Assumptions C01_compiled_reading_glued.
 
 (* 1-3 composed: from the text of the documented reading to the tree, and to the compiled post-order *)
 Theorem C01_reading_end_to_end : forall (R:registry) (d:defects) (lay:layout) (ss:list stmt) items trail,
@@ -145,5 +162,12 @@ Proof. vm_compute. reflexivity. Qed.
 Example ex_sep_ok : sep_ok [([], RIdent [120]); ([32], REqual); ([], RRoundO); ([], RIdent [97]); ([32], ROp [43]); ([], RIdent [112;105]);
                             ([], RRoundC); ([], ROp [42]); ([32; 9], ROp [43]); ([], RIdent [98]); ([32], RSemi)] [10].
 Proof. cbn [sep_ok]. repeat split; try (left; reflexivity); try (right; reflexivity); try reflexivity. Qed.
+(* the hypotheses of theorem 3a are met by `x=1--1;_a++_b*-2>=-.5&&!c "s"sel 0` - and not by `>` directly in front of `>=` *)
+Example ex_sep_glued : sep_glued [([], RIdent [120]); ([], REqual); ([], RNum [49]); ([], ROp [45]); ([], ROp [45]); ([], RNum [49]); ([], RSemi);
+   ([], RIdent [95;97]); ([], ROp [43]); ([], ROp [43]); ([], RIdent [95;98]); ([], ROp [42]); ([], ROp [45]); ([], RNum [50]); ([], ROp [62;61]); ([], ROp [45]); ([], RNum [46;53]);
+   ([], ROp [38;38]); ([], ROp [33]); ([], RIdent [99]); ([32], RStr [34;115;34]); ([], RIdent [115;101;108]); ([32], RNum [48])] [].
+Proof. cbn [sep_glued]. repeat split; try (right; right; reflexivity); try (right; left; reflexivity); try (left; reflexivity); try reflexivity. Qed.
+Example ex_sep_glued_not : ~ sep_glued [([], ROp [62]); ([], ROp [62;61])] [].
+Proof. cbn. intros (_ & _ & [H|[H|H]] & _); discriminate. Qed.
 Example ex_parses : parse_toks as_is 200%nat (print_toks ex_R layout_min ex_prog) = POk (map strip_stmt ex_prog).
 Proof. vm_compute. reflexivity. Qed.
